@@ -130,7 +130,7 @@ class Prop:
     KEEP = ['get', 'get', 'reduce', 'cum', 'diff', 'transpose', 'swapaxes', 'newaxis', 'squeeze', 'flatten', 'reshape', 'reindex',
             'sort_axis', 'interp', 'take_axis', 'compress_axis', 'dropna', 'fillna', 'setna',
             # reshaping that EXPANDS a singleton dimension (newaxis with values, repeat, broadcast onto more labels), rollaxis, ungrouping
-            'newaxis_values', 'repeat', 'broadcast', 'rollaxis', 'unflatten', 'put', 'reshape_plaincomma']
+            'newaxis_values', 'repeat', 'broadcast', 'rollaxis', 'unflatten', 'put', 'reshape_plaincomma', 'percentile']
     DROP = ['binop', 'scalar_op', 'stack', 'concatenate', 'compare', 'neg']
 
     @staticmethod
@@ -172,6 +172,7 @@ class Prop:
                 elif u < 0.8: op = ['get', 'take', {'dict': [[d, {'m': [True] + [rng.random() < 0.5 for _ in labs[1:]]}]]}, None, False, 'label']
                 else: op = ['get', 'take_pos', {'dict': [[d, {'pl': [len(labs) - 1, 0]}]]}, None, False, 'label']
                 stats['propagation_index_form']['ndmask' if op[0] == 'get_ndmask' else list(op[2]['dict'][0][1])[0]] += 1
+            elif name == 'percentile': op = ['percentile', rng.choice([50, [25, 75], [5, 50, 95]]), d if rng.random() < 0.5 else i]      # (one percentile or a list of them)
             elif name == 'reshape_plaincomma': op = ['reshape_plaincomma', i, 'reverse' if nd >= 2 and rng.random() < 0.5 else 'newdim']
             elif name == 'reduce': op = ['reduce', rng.choice(['sum', 'mean', 'median', 'max']), False, d]
             elif name == 'cum': op = ['cum', False, False, d, False]
